@@ -350,6 +350,11 @@ class ProcessRunner(Runner, ABC):
                 storage=storage
             )
         finally:
+            # Log any captured output before the task's result is
+            # reported, so that it is not lost if the main process
+            # finishes as soon as it receives the result.
+            sys.stdout.flush()
+            sys.stderr.flush()
             process_event_queue.put(ProcessEndEvent(
                 task_name=task_name,
             ))
@@ -368,6 +373,9 @@ class ProcessRunner(Runner, ABC):
     def wait(self, *, timeout_seconds: Optional[float]) -> Iterator[tuple[Task, ResultMeta | BaseException]]:
         self._consume_log_queue()
         done, _ = self.executor.wait(list(self.future_to_task.keys()), timeout_seconds=timeout_seconds)
+        # Handle the logs of tasks that completed during this wait
+        # before reporting those tasks as done.
+        self._consume_log_queue()
         for future in done:
             task = self.future_to_task[future]
             if future.cancelled:
